@@ -196,4 +196,11 @@ VARIANTS = [
          new="            mu_summed = 0.0\n            sigma_squared = 0.0\n            for member in team:\n                mu_summed += member.mu\n                sigma_squared += member.sigma**2"),
     dict(id="c14-prediction-writes-ratings", fire=["C14", "C09"], file=TMP, old="        n = len(teams)\n        denominator = (n * (n - 1)) / 2\n",
          new="        n = len(teams)\n        for team in teams:\n            for player in team:\n                player.sigma = math.sqrt(player.sigma * player.sigma + self.tau * self.tau)\n        denominator = (n * (n - 1)) / 2\n"),
+    # ------------------------------------------------------------------ C12 (explicit games against the statement's closed forms)
+    dict(id="c12-win-count-off-by-one", fire=["C12"], silent=["C09", "C16"], all5=True, file=PL,
+         old="(mu_a - mu_b) / math.sqrt(n * self.beta**2 + sigma_a + sigma_b)", new="(mu_a - mu_b) / math.sqrt((n + 1) * self.beta**2 + sigma_a + sigma_b)"),
+    dict(id="c12-draw-normaliser-halved", fire=["C12", "C11"], all5=True, file=PL, old="            denominator = n * (n - 1)\n", new="            denominator = n * (n - 1) / 2\n"),
+    dict(id="c12-draw-margin-team-count", fire=["C12", "C11"], all5=True, file=PL, old="            math.sqrt(total_player_count)\n", new="            math.sqrt(n)\n"),
+    dict(id="c12-two-team-count", fire=["C12"], silent=["C09"], all5=True, file=PL, old="                    total_player_count * self.beta**2\n", new="                    n * self.beta**2\n"),
+    dict(id="c12-silent-complement-form", silent=["C12", "C09", "C11"], all5=True, file=PL, old="            return [result, 1 - result]", new="            other = 1 - result\n            return [1 - other, other]"),
 ]
